@@ -107,6 +107,24 @@ class Dispatcher:
         if eventname in self._subscriptions:
             self._subscriptions[eventname].discard(conn)
 
+    def _wait_for_broadcasts(self, modulename=None):
+        """wait until the updates being broadcast right now are sent
+
+        announceUpdate holds the updateLock of the module while it sends an
+        update to the listeners determined before. Passing once through this
+        lock after a subscription was removed makes sure no such update is
+        delivered after the reply to the deactivate / identify request.
+        """
+        if modulename is None:
+            modules = list(self.secnode.modules.values())
+        else:
+            modules = [self.secnode.modules.get(modulename)]
+        for moduleobj in modules:
+            lock = getattr(moduleobj, 'updateLock', None)
+            if lock is not None:
+                with lock:
+                    pass
+
     def add_connection(self, conn):
         """registers new connection"""
         self._connections.append(conn)
@@ -120,6 +138,7 @@ class Dispatcher:
             conns.discard(conn)
         self.set_all_log_levels(conn, 'off')
         self._active_connections.discard(conn)
+        self._wait_for_broadcasts()
 
     def remove_connection(self, conn):
         """removes now longer functional connection"""
@@ -304,9 +323,11 @@ class Dispatcher:
             raise ProtocolError('deactivate requests don\'t take data!')
         if specifier:
             self.unsubscribe(conn, specifier)
+            self._wait_for_broadcasts(specifier.split(':', 1)[0])
         else:
             self._active_connections.discard(conn)
             # XXX: also check all entries in self._subscriptions?
+            self._wait_for_broadcasts()
         return (DISABLEEVENTSREPLY, None, None)
 
     def send_log_msg(self, conn, modname, level, msg):
